@@ -232,8 +232,11 @@ pub struct TerminalRenderer {
     /// Back surface (old)
     back: SurfaceOwned<Cell>,
 
-    /// Marked cell that are treaded specially during diffing
+    /// Marked cell that are treaded specially during diffing (frame function local)
     marks: SurfaceOwned<CellMark>,
+    /// Next frame needs to repaint everything, it is set by `clear` and
+    /// while the frame is being generated
+    force_repaint: bool,
     /// Images to be rendered (frame function local, kept here to avoid allocation)
     images: Vec<(Position, Face, Image)>,
 
@@ -247,16 +250,12 @@ impl TerminalRenderer {
     /// Create new terminal renderer
     pub fn new<T: Terminal + ?Sized>(term: &mut T, clear: bool) -> Result<Self, Error> {
         let size = term.size()?;
-        let mark = if clear {
-            CellMark::Damaged
-        } else {
-            CellMark::Empty
-        };
         Ok(Self {
             size,
             front: SurfaceOwned::new(size.cells),
             back: SurfaceOwned::new(size.cells),
-            marks: SurfaceOwned::new_with(size.cells, |_| mark),
+            marks: SurfaceOwned::new(size.cells),
+            force_repaint: clear,
             images: Vec::new(),
             glyph_cache: HashMap::new(),
             frame_count: 0,
@@ -276,7 +275,7 @@ impl TerminalRenderer {
             }
         }
 
-        self.marks.fill(CellMark::Damaged);
+        self.force_repaint = true;
         self.front.fill(Cell::default());
         self.back.fill(Cell::default());
 
@@ -294,6 +293,14 @@ impl TerminalRenderer {
     pub fn frame<T: Terminal + ?Sized>(&mut self, term: &mut T) -> Result<(), Error> {
         // clear hoisted locals
         self.images.clear();
+        // every cell is damaged if repaint is forced, it stays forced until
+        // this frame is generated completely
+        self.marks.fill(if self.force_repaint {
+            CellMark::Damaged
+        } else {
+            CellMark::Empty
+        });
+        self.force_repaint = true;
 
         // First pass
         //
@@ -450,13 +457,10 @@ impl TerminalRenderer {
         }
 
         // Flip and clear buffers
-        //
-        // Marks are reset only here, as marks set by `clear` and `new` must
-        // be visible to this frame to force full repaint.
         self.frame_count += 1;
         std::mem::swap(&mut self.front, &mut self.back);
         self.front.clear();
-        self.marks.fill(CellMark::Empty);
+        self.force_repaint = false;
 
         Ok(())
     }
